@@ -605,19 +605,25 @@ def leaf_gauss(sp):
     return Leaf(E, GaussOra(P, drep), lay, cl)
 
 
+# integer data may come in any integer dtype (counts and event masks are often stored as small or unsigned ints)
+INT_DT = {"i8": np.int64, "i4": np.int32, "i2": np.int16, "i1": np.int8, "u1": np.uint8, "u2": np.uint16,
+          "u4": np.uint32, "u8": np.uint64}
+
+
 def leaf_poisson(sp):
     dom = mkdom(sp["dom"])
-    d = np.array(sp["d"], dtype=np.int64 if sp.get("dt", "i8") == "i8" else np.int32).reshape(dom.shape)
+    d = np.array(sp["d"], dtype=INT_DT[sp.get("dt", "i8")]).reshape(dom.shape)
     E = ift.PoissonianEnergy(ift.makeField(dom, d))
-    cl = ["dom_" + sp["dom"][0], "has_zero_count" if np.any(d == 0) else "all_counts_positive"]
+    cl = ["dom_" + sp["dom"][0], "has_zero_count" if np.any(d == 0) else "all_counts_positive", "data_" + sp.get("dt", "i8")]
     return Leaf(E, PoissonOra(d), Layout(dom, False), cl)
 
 
 def leaf_bernoulli(sp):
     dom = mkdom(sp["dom"])
-    d = np.array(sp["d"], dtype=np.int64).reshape(dom.shape)
+    d = np.array(sp["d"], dtype=INT_DT[sp.get("dt", "i8")]).reshape(dom.shape)
     E = ift.BernoulliEnergy(ift.makeField(dom, d))
-    cl = ["dom_" + sp["dom"][0], "mixed" if 0 < d.sum() < d.size else ("all1" if d.sum() else "all0")]
+    cl = ["dom_" + sp["dom"][0], "mixed" if 0 < d.sum() < d.size else ("all1" if d.sum() else "all0"),
+          "data_" + sp.get("dt", "i8")]
     return Leaf(E, BernoulliOra(d), Layout(dom, False), cl)
 
 
@@ -1231,13 +1237,14 @@ def gauss_leaf(draw, dom=None, cplx=None, maxn=4, multi_ok=False):
 def poisson_leaf(draw, dom=None, maxn=4):
     dom = dom or draw(dom_st(maxn))
     return {"fam": "poisson", "dom": dom, "d": draw(S.vec(domsize(dom), st.integers(0, 20))),
-            "dt": draw(st.sampled_from(["i8", "i8", "i4"]))}
+            "dt": draw(st.sampled_from(["i8", "i8", "i4", "i2", "i1", "u1", "u2", "u4", "u8"]))}
 
 
 @st.composite
 def bernoulli_leaf(draw, dom=None, maxn=4):
     dom = dom or draw(dom_st(maxn))
-    return {"fam": "bernoulli", "dom": dom, "d": draw(S.vec(domsize(dom), st.integers(0, 1)))}
+    return {"fam": "bernoulli", "dom": dom, "d": draw(S.vec(domsize(dom), st.integers(0, 1))),
+            "dt": draw(st.sampled_from(["i8", "i8", "i4", "i2", "i1", "u1", "u2", "u4", "u8"]))}
 
 
 @st.composite
@@ -1680,6 +1687,68 @@ def _nt(what):
     return ("non-trivial = non-scalar parameter field (>= 2 pixels); " + what)
 
 
+# ----------------------------------------------------------------------------- complex gains (scaling models)
+def check_gain(rec):
+    """GaussianEnergy @ ScalingOperator(c): the model Jacobian IS a ScalingOperator (complex gain / phase), for which
+    the library takes a shortcut when pulling the metric back.  Oracle: closed forms in the real representation."""
+    n = rec["n"]
+    dom = ift.DomainTuple.make(ift.UnstructuredDomain(n))
+    cplx = rec["cplx"]
+    dt = np.complex128 if cplx else np.float64
+    c = nx.num(rec["c"]) if cplx else float(rec["c"]["re"] if isinstance(rec["c"], dict) else rec["c"])
+    d = nx.arr(rec["d"]).astype(dt)[:n]
+    x = nx.arr(rec["x"]).astype(dt)[:n]
+    kind = rec["icov"][0]
+    if kind == "none":
+        w = np.ones(n)
+        E0 = ift.GaussianEnergy(data=ift.makeField(dom, d))
+    elif kind == "scal":
+        w = np.full(n, float(rec["icov"][1]))
+        E0 = ift.GaussianEnergy(data=ift.makeField(dom, d),
+                                inverse_covariance=ift.ScalingOperator(dom, float(rec["icov"][1]), dt))
+    else:
+        w = np.array(rec["icov"][1], dtype=np.float64)[:n]
+        E0 = ift.GaussianEnergy(data=ift.makeField(dom, d),
+                                inverse_covariance=ift.makeOp(ift.makeField(dom, w), sampling_dtype=dt))
+    how = rec["how"]
+    S_ = ift.ScalingOperator(dom, c)
+    E = E0 @ S_ if how == 0 else (E0(S_) if how == 1 else E0 @ ift.ScalingOperator(dom, 1.0).scale(c))
+    xf = ift.makeField(dom, x)
+    lin = E(ift.Linearization.make_var(xf, want_metric=True))
+    r = c * x - d
+    val = 0.5 * float(np.real(np.vdot(r, w * r)))
+    close(float(lin.val.asnumpy()), val, "gain_value", tol=1e-10, scale=max(1.0, abs(val)))
+    g = np.conj(c) * (w * r)
+    close(np.asarray(lin.gradient.asnumpy()).astype(np.complex128), g.astype(np.complex128), "gain_gradient", tol=1e-10,
+          scale=max(1.0, float(np.max(np.abs(g)))))
+    want = (abs(c) ** 2) * w
+    for src, tag in ((lin.metric, "gain_metric"), (E.get_metric_at(xf), "gain_get_metric_at")):
+        for k in range(n):
+            for unit in ((1.0, 1j) if cplx else (1.0,)):
+                e = np.zeros(n, dtype=dt)
+                e[k] = unit
+                got = np.asarray(src(ift.makeField(dom, e)).asnumpy()).astype(np.complex128)
+                close(got, (want * e).astype(np.complex128), tag, tol=1e-10, scale=max(1.0, float(np.max(want))),
+                      detail=f"c={c} icov={kind} unit vector {k}*{unit}")
+    nonreal = cplx and abs(np.imag(c)) > 0
+    return dict(nontrivial=bool(nonreal or c < 0 if not cplx else nonreal),
+                classes=["cplx" if cplx else "real", "icov_" + kind, f"how_{how}",
+                         "gain_nonreal" if nonreal else "gain_real"])
+
+
+@st.composite
+def gain_recipes(draw, tier):
+    n = draw(st.integers(1, 3))
+    cplx = draw(st.sampled_from([True, True, False]))
+    num = S.cplx_nz() if cplx else S.dyadic_nz()
+    icov = draw(st.sampled_from(["none", "scal", "diag"]))
+    spec = [icov] if icov == "none" else ([icov, draw(S.dyadic_nz(0.25, 4, 8, signed=False))] if icov == "scal" else
+                                          [icov, draw(S.vec(3, S.dyadic_nz(0.25, 4, 8, signed=False)))])
+    el = S.cplx() if cplx else S.dyadic()
+    return {"n": n, "cplx": cplx, "c": draw(num), "d": draw(S.vec(3, el)), "x": draw(S.vec(3, el)), "icov": spec,
+            "how": draw(st.integers(0, 2))}
+
+
 SUBS = [
     Sub(name="oracle_selftest", check=check_selftest, cases=selftest_cases, shards=4,
         rule="fixed list: the closed-form Fisher matrix of every family against the sum / integral of "
@@ -1713,4 +1782,9 @@ SUBS = [
     Sub(name="hamiltonian", check=check_composite, strategy=composite_recipes("ham"), quick=320, thorough=8000,
         shards=3, rule="non-trivial = every case (StandardHamiltonian of 1-2 likelihood terms, with and without "
                        "ic_samp, prior_sampling_dtype None/float/matching)"),
+    Sub(name="complex_gain", check=check_gain, strategy=gain_recipes, quick=300, thorough=6000, shards=1,
+        rule="GaussianEnergy (none / scaling / diagonal inverse covariance, real and complex data) composed with a "
+             "ScalingOperator model with real, negative or complex factor c (three spellings of the composition); "
+             "oracle: value 1/2 (cx-d)^H N^-1 (cx-d), gradient conj(c) N^-1 (cx-d), metric and get_metric_at = |c|^2 N^-1 "
+             "on all real and imaginary unit vectors; non-trivial = non-real gain (real data: negative gain)"),
 ]
